@@ -304,3 +304,67 @@ def finish(pid, tier, rep, t0, bounds, assumptions, outside, domain_note, exhaus
     print("%s %s: %d obligations, %d discharged (%d by simplifier), %d inconclusive, %d paths, %d IR instr, %d replays, %d witnesses, solver %.1fs, wall %.1fs -> exit %d" % (
         pid, tier, rep.obligations, rep.discharged, rep.trivial, rep.inconclusive, rep.paths, rep.instr, rep.replays, rep.witnesses, rep.solver_time, time.time() - t0, code))
     return code
+
+
+# ------------------------------------------------------------------------------------------------------------------------------
+class Lineariser:
+    """abstraction for obligations that are linear in the atoms: every application of an uninterpreted function (sqrt, inv, acos2,
+    sin, ...) and every genuinely non-linear product / power / division is replaced by a fresh real constant (the same term always
+    by the same constant).  Proving the abstracted obligation proves the original (the abstraction only forgets facts)."""
+    def __init__(s): s.cache = {}; s.n = 0
+    def fresh(s, t):
+        s.n += 1; return z3.Real('lin!%d' % s.n)
+    def __call__(s, t):
+        t = z3.simplify(t) if z3.is_expr(t) else t
+        return s.go(t)
+    def go(s, t):
+        k = t.get_id()
+        if k in s.cache: return s.cache[k][1]
+        r = s._go(t); s.cache[k] = (t, r); return r           # keep t alive: z3 recycles ast ids
+    def _go(s, t):
+        if z3.is_const(t) or z3.is_rational_value(t) or z3.is_int_value(t): return t
+        kind = t.decl().kind(); ch = t.children()
+        if kind == z3.Z3_OP_UNINTERPRETED: return s.fresh(t) if t.sort() == z3.RealSort() else t
+        if kind == z3.Z3_OP_MUL:
+            nonnum = [c for c in ch if not (z3.is_rational_value(c) or z3.is_int_value(c))]
+            if len(nonnum) > 1 and not all(c.sort() == z3.IntSort() for c in nonnum) and not (len(nonnum) == 2 and any(c.decl().kind() == z3.Z3_OP_TO_REAL for c in nonnum) and False): return s.fresh(t)
+        if kind in (z3.Z3_OP_POWER, z3.Z3_OP_DIV) and not (kind == z3.Z3_OP_DIV and (z3.is_rational_value(ch[1]))): return s.fresh(t)
+        nch = [s.go(c) for c in ch]
+        return t.decl()(*nch) if nch else t
+
+
+class LinExplorer:
+    """path exploration whose feasibility queries see only the LINEAR skeleton of the path condition (non-linear terms and
+    uninterpreted atoms abstracted by Lineariser).  Over-approximates feasibility (never prunes a feasible path); z3's non-linear
+    engine does not honour its timeout on some of these queries, the linear one answers in milliseconds."""
+    def __init__(s, run, max_paths=4000):
+        from llsym.engine import PathCtx, PathInfeasible, BoundExceeded
+        s.run = run; s.max_paths = max_paths; s.results = []; s.nqueries = 0; s.qtime = 0.0
+    def explore(s):
+        from llsym.engine import PathCtx, PathInfeasible, BoundExceeded
+        outer = s
+        class Ctx(PathCtx):
+            def __init__(c, prefix=()):
+                PathCtx.__init__(c, prefix); c.lin = Lineariser(); c.lsolver = z3.Solver(); c.lsolver.set('timeout', 2000)
+            def assume(c, cond):
+                n0 = len(c.pc); PathCtx.assume(c, cond)
+                for t in c.pc[n0:]: c.lsolver.add(c.lin(t))
+            def feasible(c, cond):
+                outer.nqueries += 1; t0 = time.time()
+                r = c.lsolver.check(c.lin(cond)); outer.qtime += time.time() - t0
+                return r != z3.unsat
+            def branch(c, cond):
+                n0 = len(c.pc); d = PathCtx.branch(c, cond)
+                for t in c.pc[n0:]: c.lsolver.add(c.lin(t))
+                return d
+        work = [[]]; n = 0
+        while work:
+            if n >= s.max_paths: raise BoundExceeded("path bound %d" % s.max_paths)
+            pre = work.pop(); ctx = Ctx(pre); n += 1
+            try:
+                res = s.run(ctx)
+            except PathInfeasible:
+                work.extend(ctx.pending); continue
+            work.extend(ctx.pending)
+            s.results.append((ctx, res))
+        return s.results
